@@ -19,6 +19,9 @@ class MinMaxValue(GenericValue):
     def _generic_cmp(self, other):
         if self._old_value is undefined:
             state().missing_values += 1
+        else:
+            # compare first: a comparison which raises must not record the value
+            old_result = self.cmp(self._old_value, other)
 
         if self._new_value is undefined:
             self._new_value = clone(other)
@@ -29,7 +32,7 @@ class MinMaxValue(GenericValue):
             return True
 
         return self._return(
-            self.cmp(self._old_value, other),
+            old_result,
             self.cmp(self._visible_value(), other),
         )
 
@@ -37,6 +40,10 @@ class MinMaxValue(GenericValue):
         return self._file._value_to_code(self._new_value)
 
     def _get_changes(self) -> Iterator[Change]:
+        if self._new_value is undefined:
+            # the only comparison raised (or its value could not be copied)
+            return
+
         new_token = value_to_token(self._new_value)
         if not self.cmp(self._old_value, self._new_value):
             flag = "fix"
